@@ -453,6 +453,7 @@ def _save_load(plan, ev, model, x, world: World, viol, bump, site0, idx):
                 return orig.get(k, d)
 
         disk.write_faults = _CrashAt()
+    completed = world.__dict__.setdefault("completed_saves", {})  # path -> leaves of every completely saved model
     saved_ok, crashed = False, False
     full_stream = io.BytesIO()
     eqx.tree_serialise_leaves(full_stream, model)  # what a complete save writes, byte for byte
@@ -462,6 +463,7 @@ def _save_load(plan, ev, model, x, world: World, viol, bump, site0, idx):
     try:
         ml.save(path, model)
         saved_ok = True
+        completed.setdefault(path, []).append(before)
         bump("save_returned")
     except SimCrash:
         crashed = True
@@ -519,16 +521,21 @@ def _save_load(plan, ev, model, x, world: World, viol, bump, site0, idx):
         except Exception as e:
             viol("C13", "raises", {"error": f"{type(e).__name__}: {str(e)[:300]}"}, f"{site0}/save_load/call")
         return loaded
-    # after a crash or a failed save the statement promises nothing about durability; the one thing that is still
-    # decidable and sound: a file that is a *strict prefix* of the complete stream (interrupted or truncated write)
-    # cannot be deserialised by the unchanged code (the leaf stream ends early), so a load that returns a model
-    # different from the saved one from such a file has silently handed back garbage.
+    # After a crash or a failed save the statement promises nothing about durability. What is still decidable and sound
+    # is the classic crash-consistency clause "old or new, never garbage": if load *returns*, the model must be the one
+    # being saved or one of the models completely saved to that path before. With the unchanged save() ('wb': truncate,
+    # then sequential writes) the file after a crash is an old complete checkpoint, the new complete one, or a prefix of
+    # the new one - and a strict prefix of an equinox leaf stream cannot be deserialised, so load raises.
     content = disk.content(path) or b""
     if not same:
-        if len(content) < len(full_bytes) and full_bytes.startswith(content):
-            viol("C13", "truncated_checkpoint_loads_silently", {"file_bytes": len(content), "complete_bytes": len(full_bytes), "faults": _fault_tag(ev), "cls": cfg["cls"]}, f"{site0}/save_load/strict_prefix")
-        else:
-            bump("torn_load_silent")
+        def _eq(l1, l2):
+            return len(l1) == len(l2) and all((n1 == n2) and (np.array_equal(a, b, equal_nan=True) if isinstance(a, np.ndarray) else a == b) for (n1, a), (n2, b) in zip(l1, l2))
+
+        if any(_eq(after, old) for old in completed.get(path, [])):
+            bump("load_after_fault_returned_older_checkpoint")
+            return model
+        what = "strict prefix of the complete stream" if (len(content) < len(full_bytes) and full_bytes.startswith(content)) else "neither old nor new content"
+        viol("C13", "crash_left_loadable_garbage", {"file": what, "file_bytes": len(content), "complete_bytes": len(full_bytes), "faults": _fault_tag(ev), "cls": cfg["cls"]}, f"{site0}/save_load/old_or_new")
         return model
     bump("load_after_fault_equal")
     return loaded
